@@ -338,18 +338,69 @@ def r4_for_iter(text):
     return text, n
 
 
-def closure_body_open(m, start, nth):
-    """index of the `{` opening the body of the nth closure (|args| { .. }) after `start`"""
-    k = 0
-    for mo in re.finditer(r'\|[^|]*\|\s*', m[start:]):
-        j = start + mo.end()
-        if m[j] == '{' or m.startswith('->', j):
+def find_closures(m, start):
+    """[(params_start, params_end, body_start, body_end)] for closures in m[start:], in order of appearance.
+    A closure starts with `|` (or `||`) right after `(`, `,`, `=`, `move` or `return`."""
+    out = []
+    for mo in re.finditer(r'(?:(?<=[(,=])|(?<=move)|(?<=return))\s*(\|\||\|)', m[start:]):
+        ps = start + mo.start(1)
+        if mo.group(1) == '||':
+            pe = ps + 2
+        else:
+            j = ps + 1
+            depth = 0
+            while j < len(m):
+                c = m[j]
+                if c in '(<[':
+                    depth += 1
+                elif c in ')>]':
+                    depth -= 1
+                elif c == '|' and depth <= 0:
+                    break
+                j += 1
+            pe = j + 1
+        k = pe
+        while m[k].isspace():
             k += 1
-            if k == nth:
-                while m[j] != '{':
-                    j += 1
-                return j
-    raise ExtractError('closure #%d not found' % nth)
+        if m.startswith('->', k):
+            # explicit return type: body must be a block
+            while m[k] != '{':
+                k += 1
+        if m[k] == '{':
+            be = match_close(m, k) + 1
+        else:
+            # expression body: up to the `,` or closing bracket of the enclosing call at depth 0
+            j = k
+            depth = 0
+            while j < len(m):
+                c = m[j]
+                if c in '([{':
+                    depth += 1
+                elif c in ')]}':
+                    if depth == 0:
+                        break
+                    depth -= 1
+                elif c in ',;' and depth == 0:
+                    break
+                j += 1
+            be = j
+        out.append((ps, pe, k, be))
+    return out
+
+
+def annotate_closure(text, start, nth, header_lines, tagger):
+    """Replace the parameter list of the nth closure after `start` by `header_lines` (typed params,
+    named return value and ensures) and brace its body; the body text itself is kept verbatim."""
+    m = mask(text)
+    cl = find_closures(m, start)
+    if nth > len(cl):
+        raise ExtractError('closure #%d not found' % nth)
+    ps, pe, bs, be = cl[nth - 1]
+    body = text[bs:be]
+    if not body.lstrip().startswith('{'):
+        body = '{ ' + body.strip() + ' }'
+    hdr = '\n'.join(tagger(l) for l in header_lines)
+    return text[:ps] + hdr + '\n' + body + text[be:]
 
 
 RULES = {
